@@ -647,7 +647,7 @@ def parse_rows():
                 if i is None: continue
                 txt = str(i)
                 j = parse_line(txt)
-                same = j is not None and type(j) is type(i) and str(j) == txt and j.stack_pop_size == i.stack_pop_size and j.stack_push_size == i.stack_push_size
+                same = j is not None and type(j) is type(i) and str(j) == txt and j.stack_pop_size == i.stack_pop_size and j.stack_push_size == i.stack_push_size and fingerprint(j) == fingerprint(i)
                 costs = []
                 if not l.startswith(skip_cost):
                     for v in range(1, 9):
@@ -661,6 +661,22 @@ def parse_rows():
         except BaseException as e:  # noqa
             rows.append((l, 'ERROR', type(e).__name__, False, []))
     return rows
+
+
+LINKAGE = {'_prev', '_next', '_line_num', '_source_code_line', '_comment', '_comments_before_ins', '_tealer_comments', '_bb', '_callsub_ins'}
+
+
+def fingerprint(ins):
+    """what makes two parsed instructions IDENTICAL: the class and every immediate (index, field with its own index, value, bytes,
+    labels ...), not only the printed form - `replace 0` and `replace` are different instructions even if both print as `replace`"""
+    import enum
+    def norm(v):
+        if isinstance(v, enum.Enum): return ('enum', type(v).__name__, v.name)
+        if isinstance(v, (list, tuple)): return [norm(x) for x in v]
+        if isinstance(v, (str, int, bool, bytes)) or v is None: return v
+        if hasattr(v, '__dict__'): return (type(v).__name__, sorted((k, norm(x)) for k, x in vars(v).items() if k not in LINKAGE))
+        return repr(v)
+    return (type(ins).__name__, sorted((k, norm(x)) for k, x in vars(ins).items() if k not in LINKAGE))
 
 
 def gen_parsetable():
